@@ -444,7 +444,16 @@ func genC01(env *core.Env, emit func(core.Case)) {
 		target := kms[p.targetPos]
 		clientKey := target
 		if p.stale {
-			clientKey = gen.NewKey(r, id, "public.example", suites) // a key the server no longer holds
+			// a key the server no longer holds - under the id of a current key, or (rotation with fresh
+			// ids, a bootstrap config with a random id) under an id and a suite that no held key has
+			sid, ssuites := id, suites
+			if r.IntN(2) == 0 {
+				sid = id + 101
+				if r.IntN(2) == 0 {
+					ssuites = []gen.Suite{{KDF: 1, AEAD: p.aead%3 + 1}}
+				}
+			}
+			clientKey = gen.NewKey(r, sid, "public.example", ssuites)
 		}
 		keys := echKeys(kms...)
 		list, _ := ech.ConfigList([]ech.Config{clientKey.Config})
